@@ -1,7 +1,7 @@
 (** C08Q: sub-check of C08 — the quarantine arithmetic of
     OldCurrentNewLocationBlobMap with detections landing INSIDE Put().
 
-    Input  ((bs old cur new mut pb) ops), ops:
+    Input  ((bs old cur new mut pb [init]) ops), init = initialBlocksCount (absent: 0), ops:
       (0 sz hooks)  Put(sz); hooks = for the i-th PopFront/PushBack the real
                     findBlockWithSpace makes on the block list, the reader ids
                     whose integrity callback fires just before that call
@@ -184,7 +184,8 @@ Fixpoint mon_ops (c : qcfg) (R D : Z) (tg : list (option Z)) (mp : list Z)
 
 Definition dec_cfg (s : sx) : qcfg :=
   {| q_bs := sx_Z (sx_nth s 0); q_old := sx_Z (sx_nth s 1); q_cur := sx_Z (sx_nth s 2);
-     q_new := sx_Z (sx_nth s 3); q_mut := sx_bool (sx_nth s 4); q_pb := sx_Z (sx_nth s 5) |}.
+     q_new := sx_Z (sx_nth s 3); q_mut := sx_bool (sx_nth s 4); q_pb := sx_Z (sx_nth s 5);
+     q_init := sx_Z (sx_nth s 6) |}.
 
 Definition dec_op (s : sx) : op :=
   match sx_Z (sx_nth s 0) with
@@ -227,8 +228,14 @@ Definition dec_oobs (s : sx) : oobs :=
 Definition inp_cfg (inp : sx) : qcfg := dec_cfg (sx_nth inp 0).
 Definition inp_ops (inp : sx) : list op := map dec_op (sx_list (sx_nth inp 1)).
 
-Definition run08Q (inp : sx) : sx := L (map enc_oobs (run_ops (inp_cfg inp) init (inp_ops inp))).
+(** The blocks the map is constructed over (initialBlocksCount; absent = 0)
+    beyond the configured capacity are quarantined by the constructor: the
+    monitor starts with that boundary instead of 0. *)
+Definition mon_D0 (c : qcfg) : Z := Z.max 0 (q_init c - cap c).
+
+Definition run08Q (inp : sx) : sx :=
+  L (map enc_oobs (run_ops (inp_cfg inp) (init_of (inp_cfg inp)) (inp_ops inp))).
 Definition mon08Q (inp obs : sx) : list Z :=
-  mon_ops (inp_cfg inp) 0 0 [] [] (inp_ops inp) (map dec_oobs (sx_list obs)).
+  mon_ops (inp_cfg inp) 0 (mon_D0 (inp_cfg inp)) [] [] (inp_ops inp) (map dec_oobs (sx_list obs)).
 
 Definition judge08Q (inp obs : sx) : sx := judge_det run08Q mon08Q inp obs.
